@@ -5,7 +5,9 @@
 use proc_macro2::TokenStream;
 use quote::quote;
 
-use super::super::super::conversions::{BinOpEmitKind, ConversionContext, determine_binop_plan, determine_conversion};
+use super::super::super::conversions::{
+    BinOpEmitKind, ConversionContext, NumericConversion, determine_binop_plan, determine_conversion,
+};
 use super::super::super::expr::{BinOp, IrCallArg, IrExprKind, TypedExpr, VarAccess, VarRefKind};
 use super::super::super::types::{IrType, Mutability};
 use super::super::{EmitError, IrEmitter};
@@ -187,6 +189,11 @@ impl<'a> IrEmitter<'a> {
                     if left_is_ref && right_is_value {
                         return Ok(quote! { *#l #op_tokens #r });
                     }
+                }
+
+                // `(n) as f64 < x` does not parse in Rust (`f64 <` starts generic arguments): group the cast.
+                if matches!(op, BinOp::Lt | BinOp::Le) && matches!(plan.lhs_conv, NumericConversion::ToFloat) {
+                    return Ok(quote! { (#l) #op_tokens #r });
                 }
 
                 Ok(quote! { #l #op_tokens #r })
